@@ -93,7 +93,7 @@ pub fn c01_get_apm_48() {
     }
 }
 
-// @harness props=C01 tier=quick panic=allow
+// @harness props=C01,C08 tier=quick panic=allow
 // @encodes BootInformation::basic_memory_info_tag get_tag TagIter::next DynSizedStructure::cast::<T> and every accessor of the returned tag
 // @bound fully symbolic 48-byte region (every tag type/size/order that fits)
 #[cfg_attr(kani, kani::proof)]
